@@ -66,6 +66,9 @@ func SetHandler(h HookHandler)     { vhook.SetHandler(h) }
 func SetWriteFault(f WriteFaultFn) { vhook.SetWriteFault(f) }
 func SetDiskFree(f DiskFreeFn)     { vhook.SetDiskFree(f) }
 
+// SetOpFault installs the fault function for directory and file creation.
+func SetOpFault(f func(op, path string) error) { vhook.SetOpFault(f) }
+
 // InlineContainer returns the DI container of an inline handle.
 func InlineContainer(d fs_db.DB) *Container { return inlineDb.VerifContainer(d) }
 
